@@ -320,7 +320,11 @@ func (w *World) solveAll(obls []*Obl, opt SolveOpts) {
 				}
 				tx := texts[o]
 				w.solveOne(o, tx[0], opt)
-				if o.Status != "unsat" {
+				good := "unsat"
+				if o.Kind == "vacuity" {
+					good = "sat" // a vacuity guard asks for a model
+				}
+				if o.Status != good {
 					atomic.AddInt32(&failures, 1)
 				}
 			}
